@@ -97,6 +97,23 @@ def cases(ctx):
     n = 450 if ctx.tier == 'quick' else 4000
     for i in range(n):
         out.append(_case(rng, heavy_ok=(i % 4 == 0)))
+    # twins: the same grid run again in the same process with every number of the other numeric type (1 <-> 1.0): whatever
+    # the library remembers between two sweeps must not hand the second one the first one's values
+    import copy
+    twins = []
+    for c in out[len(out) // 2::9]:
+        if c['strategy']['name'] not in ('seq', 'shuffle_true', 'shuffle_int'): continue
+        t = copy.deepcopy(c)
+        changed = False
+        for a, vals in t['sweep']['values'].items():
+            for j, v in enumerate(vals):
+                if isinstance(v, bool): continue
+                if isinstance(v, int): vals[j] = float(v); changed = True
+                elif isinstance(v, float) and v.is_integer(): vals[j] = int(v); changed = True
+        if changed:
+            t['twin'] = True
+            twins += [copy.deepcopy(c), t]
+    out += twins
     out += big_cases(rng, ctx.tier)
     # a grid with a repeated value must be rejected before the function is called at all
     for i in range(20 if ctx.tier == 'quick' else 150):
@@ -123,6 +140,7 @@ def cases(ctx):
             out.append(c)
     for c in out:
         ctx.count('strategy', c['strategy']['name']); ctx.count('kind', next(iter(c['kind'])))
+        ctx.count('twin of the previous case', bool(c.get('twin')))
         ctx.count('n_args', len(c['sweep']['combo_args'])); ctx.count('split/flat', f"{c['split']}/{c['flat']}")
         ns = sweeps.n_settings(c['sweep'])
         ctx.count('n_combinations', '1-8' if ns <= 8 else '9-26' if ns <= 26 else '27-60' if ns <= 60 else '61-120' if ns <= 120 else '>120')
